@@ -246,6 +246,30 @@ def trailer_case(rng):
     return spec
 
 
+def multiline_case(rng):
+    """field definitions spread over several lines, with comments above / inline on the opening line / docstring below;
+    string defaults containing '#' only together with an inline comment (without one: finding C19-multiline-hash)"""
+    spec = random_class_case(rng) if rng.random() < 0.6 else chain_case(rng)
+    for c in spec["classes"]:
+        for b in c["blocks"]:
+            if b["default"] is not None and rng.random() < 0.6:
+                b["multiline"] = True
+                if b["inline"] is not None and rng.random() < 0.5:
+                    b["ann"], b["default"] = "str", rng.choice(['"#fff"', "'a # b'"])
+    spec["stream"] = "multiline"
+    return spec
+
+
+def finding_multiline_hash(rng):
+    """a multi-line definition whose opening line has a '#' inside a string literal and NO comment"""
+    mk = Mk()
+    b0 = mk_block(rng, mk, "color", rng.choice([set(), {"above"}, {"help"}]))
+    b0.update(ann="str", default=rng.choice(['"#fff"', "'x #y'"]), inline=None, below=None, multiline=True)
+    b1 = mk_block(rng, mk, "ab", rand_positions(rng) - {"cls"})
+    blocks = [b0, b1] if rng.random() < 0.5 else [b1, b0]
+    return {"stream": "finding:multiline-hash", "classes": [mk_class(rng, mk, "C0", None, blocks, [])], "target": "C0"}
+
+
 # ---- streams of the recorded (open) findings: each is known to fail, kept small
 
 
@@ -382,7 +406,12 @@ INLINE_TEMPLATES = [
     "    x: int = {1, 2}",
     "    x: int = 3)",
     "    x: str = '#' '#'",
+    '    x: str = field(default="#fff", alias=["-c"],',
+    "    x: str = field(default='a # b',",
+    "    x: int = field(",
 ]
+# templates that open a multi-line expression: a comment appended to them is still the line's own comment
+INLINE_OPEN = {t for t in INLINE_TEMPLATES if t.endswith(",") or t.endswith("(")}
 # templates that are complete, valid statements (the "own comment" clause of the oracle applies to them)
 INLINE_WELLFORMED = {t for t in INLINE_TEMPLATES if not any(k in t for k in ("unterminated", "[2, 3]", "3)"))}
 
@@ -414,6 +443,8 @@ def gen(rng, tier):
         specs.append(trailer_case(rng))
     for _ in range(15 if quick else 150):
         specs.append(dynamic_base_case(rng))
+    for _ in range(40 if quick else 400):
+        specs.append(multiline_case(rng))
     for _ in range(20 if quick else 300):
         specs.append(clsdoc_inherited_case(rng))
         specs.append(header_comment_case(rng))
@@ -429,7 +460,8 @@ def gen(rng, tier):
             yield {"op": "doc.history", "case": spec}
     # (d'') streams of the open findings
     for _ in range(3 if quick else 20):
-        for f in (finding_classdoc_escape, finding_docstring_colon, finding_multiline_header, finding_method_local):
+        for f in (finding_classdoc_escape, finding_docstring_colon, finding_multiline_header, finding_method_local,
+                  finding_multiline_hash):
             spec = f(rng)
             yield {"op": "doc.scan", "case": spec}
             yield {"op": "doc.help", "case": spec}
@@ -471,10 +503,25 @@ def block_tail(b):
 def render_block(b):
     out = [f"{IND}# {m}" for m in b["above"]]
     out += [""] * b["gap1"]
-    line = f'{IND}{b["name"]}:{block_tail(b)}'
-    if b["inline"] is not None:
-        line += f'  # {b["inline"]}'
-    out.append(line)
+    ml = b.get("multiline")
+    if ml:
+        # the definition is spread over several lines: `field(` opened on the declaration line, `)` on a later line
+        h = b.get("help")
+        fn = "dfield" if (h and h["how"] == "meta") else "field"
+        line = f'{IND}{b["name"]}: {b["ann"]} = {fn}(default={b["default"]},'
+        if b["inline"] is not None:
+            line += f'  # {b["inline"]}'
+        out.append(line)
+        if h:
+            out.append(f'{IND}{IND}help="{h["text"]}",' if h["how"] == "custom" else f'{IND}{IND}metadata=dict(help="{h["text"]}"),')
+        else:
+            out.append(f'{IND}{IND}metadata=dict(note="n"),')
+        out.append(f"{IND})")
+    else:
+        line = f'{IND}{b["name"]}:{block_tail(b)}'
+        if b["inline"] is not None:
+            line += f'  # {b["inline"]}'
+        out.append(line)
     out += [""] * b["gap2"]
     bl = b["below"]
     if bl:
@@ -871,7 +918,34 @@ def model_unmodelled(mo):
     return isinstance(mo, dict) and mo.get("unmodelled") is True
 
 
+def _without_multiline_below(spec):
+    """the same layout with the docstrings below MULTI-LINE definitions dropped (None if there is none)"""
+    hit = False
+    classes = []
+    for c in spec["classes"]:
+        blocks = []
+        for b in c["blocks"]:
+            if b.get("multiline") and b["below"]:
+                b, hit = dict(b, below=None), True
+            blocks.append(b)
+        classes.append(dict(c, blocks=blocks))
+    return dict(spec, classes=classes) if hit else None
+
+
 def oracle(case, obs):
+    """the property is stated for dataclasses written with one field per line: for a definition spread over several lines
+    the docstring below it is accepted either way (found, or not found — as if it were not there); everything else (own
+    comment above / inline comment of the opening line, no foreign text, no invented text) is demanded as usual"""
+    fails = _oracle(case, obs)
+    spec = case.get("case")
+    if fails and case["op"] in ("doc.scan", "doc.help") and isinstance(spec, dict) and "classes" in spec:
+        alt = _without_multiline_below(spec)
+        if alt is not None:
+            return _oracle(dict(case, case=alt), obs)    # [] when dropping those docstrings explains everything
+    return fails
+
+
+def _oracle(case, obs):
     op, spec = case["op"], case["case"]
     if op == "doc.line":
         return []
@@ -883,6 +957,8 @@ def oracle(case, obs):
         if "notdef" in obs:
             return []
         for t in INLINE_WELLFORMED:
+            if t in INLINE_OPEN and line == t and "#" not in t:
+                continue
             if line.startswith(t) and (line == t or line[len(t):].lstrip().startswith("#")):
                 exp = line[len(t):].strip()[1:].strip() if line != t else ""
                 if obs["inline"] != exp:
@@ -1003,6 +1079,11 @@ def tags(case, obs):
             t.append("no-source-class")
         if c.get("trailer"):
             t.append("trailing-method")
+        for b in c["blocks"]:
+            if b.get("multiline"):
+                t.append("multiline-definition")
+                t.append("multiline:" + "+".join(k for k, v in (("above", b["above"]), ("inline", b["inline"] is not None),
+                                                                   ("below", b["below"]), ("hash", "#" in (b["default"] or ""))) if v))
         t.append(f"hdr_gap:{c['hdr_gap']}")
         for b in c["blocks"]:
             if b["default"] is None:
@@ -1222,7 +1303,23 @@ def _diamond_history_sig(case, obs, fail):
     return False
 
 
+def _multiline_hash_sig(case, obs, fail):
+    if case.get("op") == "doc.inline":
+        line = (case.get("case") or {}).get("line", "")
+        return (fail.get("clause") == "inline-own-comment" and any(line == t for t in INLINE_OPEN) and "#" in line
+                and obs.get("inline") == line.split("#", 1)[1].strip())
+    spec = _sub(case, fail)
+    if spec is None or fail.get("clause") not in ("no-invented-text", "precedence") or fail.get("kind") not in ("inline", "help"):
+        return False
+    b = effective_blocks(spec).get(fail.get("field"))
+    if not b or not b.get("multiline") or b["inline"] is not None or "#" not in b["default"]:
+        return False
+    first_line = render_block(b)[len(b["above"]) + b["gap1"]]
+    return fail.get("got") == [first_line.split("#", 1)[1].strip()]
+
+
 FINDINGS = {
+    "C19-multiline-hash": _multiline_hash_sig,
     "C19-classdoc-escape": _classdoc_escape_sig,
     "C19-docstring-colon": _docstring_colon_sig,
     "C19-multiline-header": _multiline_header_sig,
